@@ -60,6 +60,11 @@ func runHist(m map[string]any) Result {
 	var docsTV []*TV
 	var docsGo []any
 	var builders []*builder
+	if n, ok := m["npool"].(interface{ Int64() (int64, error) }); ok {
+		if v, _ := n.Int64(); int(v) < len(pool) {
+			pool = pool[:v]
+		}
+	}
 	for _, d := range pool {
 		tv, err := fromJSON(d)
 		if err != nil {
